@@ -7,9 +7,44 @@ use std::sync::{Arc, Weak};
 use verifkit::tok::{self, HeapTok};
 use verifkit::{ensure, fail, pick, tracked_confirmed, CaseResult, Ctx, Fail, Info};
 
+/// Over-aligned on purpose: the reference-count header of the allocation is then not where a
+/// clone/drop function instantiated for another payload type would look for it.
+#[repr(align(64))]
 pub struct Payload {
     tok: HeapTok,
     alloc: usize,
+}
+
+// Counting trampolines swapped into the published clone_fn / drop_fn fields of the first handle
+// of an allocation; every derived handle copies them, so every clone and every release of a
+// cglue handle must pass through them ("run the functions of the module that created it").
+static ORIG_CLONE: std::sync::atomic::AtomicUsize = std::sync::atomic::AtomicUsize::new(0);
+static ORIG_DROP: std::sync::atomic::AtomicUsize = std::sync::atomic::AtomicUsize::new(0);
+static T_CLONES: std::sync::atomic::AtomicU64 = std::sync::atomic::AtomicU64::new(0);
+static T_DROPS: std::sync::atomic::AtomicU64 = std::sync::atomic::AtomicU64::new(0);
+
+unsafe extern "C" fn tramp_clone(p: usize) -> usize {
+    T_CLONES.fetch_add(1, std::sync::atomic::Ordering::SeqCst);
+    let f: unsafe extern "C" fn(usize) -> usize = std::mem::transmute(ORIG_CLONE.load(std::sync::atomic::Ordering::SeqCst));
+    f(p)
+}
+unsafe extern "C" fn tramp_drop(p: usize) {
+    T_DROPS.fetch_add(1, std::sync::atomic::Ordering::SeqCst);
+    let f: unsafe extern "C" fn(usize) = std::mem::transmute(ORIG_DROP.load(std::sync::atomic::Ordering::SeqCst));
+    f(p)
+}
+
+fn install<T>(t: &mut T) {
+    assert_eq!(std::mem::size_of::<T>(), std::mem::size_of::<ArcView>());
+    let v = unsafe { &mut *(t as *mut T as *mut ArcView) };
+    if v.clone_fn != 0 && v.clone_fn != tramp_clone as usize {
+        ORIG_CLONE.store(v.clone_fn, std::sync::atomic::Ordering::SeqCst);
+        v.clone_fn = tramp_clone as usize;
+    }
+    if v.drop_fn != 0 && v.drop_fn != tramp_drop as usize {
+        ORIG_DROP.store(v.drop_fn, std::sync::atomic::Ordering::SeqCst);
+        v.drop_fn = tramp_drop as usize;
+    }
 }
 
 impl Payload {
@@ -36,6 +71,10 @@ struct ArcView {
 fn view<T>(t: &T) -> ArcView {
     assert_eq!(std::mem::size_of::<T>(), std::mem::size_of::<ArcView>());
     unsafe { *(t as *const T as *const ArcView) }
+}
+
+fn a_is_even(n_allocs: usize) -> bool {
+    n_allocs % 3 != 0
 }
 
 pub enum H {
@@ -100,6 +139,9 @@ struct World {
     weak: Vec<Weak<Payload>>,
     tok_ids: Vec<u32>,
     fns: Vec<(usize, usize)>, // (clone_fn, drop_fn) of the originating handle
+    tramp: Vec<bool>,         // allocation has counting trampolines installed
+    want_clones: u64,
+    want_drops: u64,
     max_live: usize,
     conv: bool,
 }
@@ -125,6 +167,14 @@ impl World {
                 "{when}: allocation {a} has {live} live handles and its payload was dropped {d} times"
             );
         }
+        let (tc, td) = (T_CLONES.load(std::sync::atomic::Ordering::SeqCst), T_DROPS.load(std::sync::atomic::Ordering::SeqCst));
+        ensure!(
+            tc == self.want_clones && td == self.want_drops,
+            "stored-fn-bypassed",
+            "{when}: the clone/drop functions stored in the handles were called {tc}/{td} times, but {}/{} clones/releases of handles carrying them were performed",
+            self.want_clones,
+            self.want_drops
+        );
         for (i, s) in self.slots.iter().enumerate() {
             if let Some(v) = s.h.view() {
                 match s.alloc {
@@ -162,7 +212,17 @@ impl World {
         self.weak.push(Arc::downgrade(arc));
         self.tok_ids.push(arc.tok.id());
         self.fns.push((0, 0));
+        self.tramp.push(false);
         self.weak.len() - 1
+    }
+
+    /// a cglue handle (not a std Arc) of a trampolined allocation goes away
+    fn note_drop(&mut self, s: &Slot) {
+        if let (Some(a), true) = (s.alloc, !matches!(s.h, H::A(_))) {
+            if self.tramp[a] {
+                self.want_drops += 1;
+            }
+        }
     }
 
     fn apply(&mut self, op: &Op, step: usize) -> Result<(), Fail> {
@@ -205,6 +265,15 @@ impl World {
                     5 => Slot { h: H::C(CArc::from(None::<Arc<Payload>>)), alloc: None },
                     _ => Slot { h: H::C(CArc::default()), alloc: None },
                 };
+                let mut slot = slot;
+                if let (Some(a), true) = (slot.alloc, a_is_even(self.weak.len())) {
+                    match &mut slot.h {
+                        H::C(x) => install(x),
+                        H::S(x) => install(x),
+                        _ => {}
+                    }
+                    self.tramp[a] = true;
+                }
                 if let (Some(a), Some(v)) = (slot.alloc, slot.h.view()) {
                     self.fns[a] = (v.clone_fn, v.drop_fn);
                     ensure!(
@@ -219,6 +288,11 @@ impl World {
             Op::Clone(c) => {
                 let i = pick(*c, n);
                 let alloc = self.slots[i].alloc;
+                if let (Some(a), true) = (alloc, !matches!(self.slots[i].h, H::A(_))) {
+                    if self.tramp[a] {
+                        self.want_clones += 1;
+                    }
+                }
                 let h = match &self.slots[i].h {
                     H::C(x) => H::C(x.clone()),
                     H::S(x) => H::S(x.clone()),
@@ -336,7 +410,9 @@ impl World {
             }
             Op::Drop(c) => {
                 let i = pick(*c, n);
-                drop(self.slots.remove(i));
+                let s = self.slots.remove(i);
+                self.note_drop(&s);
+                drop(s);
             }
         }
         self.max_live = self.max_live.max(
@@ -356,9 +432,14 @@ pub fn check(case: &Case) -> CaseResult {
             weak: Vec::new(),
             tok_ids: Vec::new(),
             fns: Vec::new(),
+            tramp: Vec::new(),
+            want_clones: 0,
+            want_drops: 0,
             max_live: 0,
             conv: false,
         };
+        T_CLONES.store(0, std::sync::atomic::Ordering::SeqCst);
+        T_DROPS.store(0, std::sync::atomic::Ordering::SeqCst);
         for (step, op) in case.ops.iter().enumerate() {
             w.apply(op, step)?;
         }
@@ -368,7 +449,9 @@ pub fn check(case: &Case) -> CaseResult {
             let c = case.drop_order.get(k).copied().unwrap_or(0);
             k += 1;
             let i = pick(c, w.slots.len());
-            drop(w.slots.remove(i));
+            let s = w.slots.remove(i);
+            w.note_drop(&s);
+            drop(s);
             w.invariant(&format!("final drop {k}"))?;
         }
         ntr.set((w.conv, w.max_live >= 2, w.weak.len()));
